@@ -349,7 +349,7 @@ def buf_rules(prog, R, refill):
     bodies = [b for b in prog.bodies.values() if not is_derive(b) and (b.file.endswith('fasta.rs') or b.file.endswith('fastq.rs') or b.file.endswith('lib.rs'))]
     # ---- BUF-1
     for b in bodies:
-        cons = find_call(b, 'std::io::BufRead::consume')
+        cons = [(x, t) for x, t in find_call(b, 'std::io::BufRead::consume') if not is_discard_all(prog, b, t)]
         n = 0
         for cb, ct in cons:
             n += 1
